@@ -339,14 +339,19 @@ class PinStream(Stream):
                 for n in range(0, 15 - len(pre)):
                     for t in itertools.product("rws", repeat=n):
                         yield {"h": pre + "".join(t)}
-        while True:
-            n = rng.choice([1, 3, 8, 12, 14, 14, 20, 40, 270, 300, 520])
+        count = 0
+        while tier != "quick" or count < 450:
+            count += 1
+            n = rng.choice([1, 3, 8, 12, 14, 14, 14, 14, 20, 40, 270, 300, 520] if tier != "quick" else [1, 3, 8, 12, 14, 14, 14, 14, 14, 20, 40, 270])
             w = rng.choice([(1, 1, 1), (1, 6, 1), (1, 3, 6), (1, 0, 20), (3, 1, 1)])
             yield {"h": "".join(rng.choices("rws", weights=w, k=n))}
 
     def real(self, case):
         ans, counter = run_history(case["h"])
         return f"{ans}|{counter}"
+
+    def exhaustive(self, tier):
+        return tier == "thorough"  # every history up to length 7 and every continuation of the lock-out prefixes up to 14
 
     def model_line(self, case):
         return line("pin.history", 0, case["h"] or "-")
@@ -407,7 +412,9 @@ class GateStream(Stream):
     def cases(self, rng, tier):
         g = gen_mod()
         default = [".localhost", "127.0.0.1"]
-        while True:
+        count = 0
+        while tier != "quick" or count < 700:
+            count += 1
             if rng.random() < 0.6:
                 host = rng.choice(g.HOSTS)[0]
             else:
@@ -421,10 +428,21 @@ class GateStream(Stream):
                 "evalex": rng.random() < 0.7,
                 "pin": rng.random() < 0.7,
                 "dbg": rng.choice(DEBUGGER_VARIANTS),
-                "pre": rng.choice([0, 0, 0, 5, 10, 11, 12, 260]),
+                "pre": rng.choice([0, 0, 0, 0, 0, 5, 10, 11, 12, 260]),
             }
 
     def _run(self, case):
+        import json
+
+        key = json.dumps(case, sort_keys=True)
+        memo = self.__dict__.setdefault("_memo", {})
+        if key not in memo:
+            if len(memo) > 20000:
+                memo.clear()
+            memo[key] = self._run_uncached(case)
+        return memo[key]
+
+    def _run_uncached(self, case):
         g = gen_mod()
         rig = g.Rig(case["evalex"], case["pin"])
         host = None if case["host"] == "~" else unhs(case["host"])
@@ -526,7 +544,7 @@ CHECK = Check(
         "multi-process sharing of the failure counter (multiprocessing.Value) and real sleeping are outside the model",
     ],
     trusted_extra=["CPython's idna codec (encodings.idna) - opaque in the model, also used by the host oracle"],
-    quick_budget=1500,
+    quick_budget=4000,
     thorough_budget=12000,
 )
 
